@@ -274,6 +274,9 @@ func checkC09(c *Ctx) {
 	r.Rule("C09.18", "a reload swaps in the parsed policy lists of the new configuration; it never re-parses into the live object", 2)
 	checkReloadTakeover(c, "C09.18")
 
+	// ---- C09.19 no update is lost to a table swap (shared with C08.11)
+	checkTablesNeverReplaced(c, "C09.19")
+
 	// ---- C09.15 shutdown: a goroutine is counted before it is started - Add inside the goroutine races with Wait
 	r.Rule("C09.15", "no goroutine registers itself with the wait group that waits for it", 1)
 	{
